@@ -66,7 +66,7 @@ struct cv_wq_state { cv_i64 head, tail; void *trk;       /* trk: the identity (f
 #define WQ_CLEAN (wq_slot_pos == QM_NOPOS && wq_dtor_n == 0 && wq_trk_drops == 0)
 #define WQ_STATE gh_wq, wq_front_slot, wq_back_slot
 static void *cv_wq_elem(cv_i64 pos) { void *any = nondet_ptr(); __CPROVER_assume(any != 0); return pos == gh_WK ? wq_trk : any; }
-#define CV_DEF_WQ(WQ, PR, CTOR, DTOR, EMPTY, FRONT, POP, EMPLACE) \
+#define CV_DEF_WQ(WQ, PR, CTOR, DTOR, EMPTY, FRONT, BACK, POP, EMPLACE) \
   PR wq_front_slot, wq_back_slot;      /* slot objects of the real promise type (front() / emplace() return references to them) */ \
   void CTOR(WQ *d) { Q_TOUCH("std::queue<promise>()"); wq_head = wq_tail = 0; wq_slot_pos = QM_NOPOS; }                              \
   void DTOR(WQ *d) { Q_TOUCH("std::queue<promise>::~queue");                                                                         \
@@ -76,6 +76,9 @@ static void *cv_wq_elem(cv_i64 pos) { void *any = nondet_ptr(); __CPROVER_assume
     __CPROVER_assert(wq_head < wq_tail, "std::queue<promise>::front() on a non-empty queue");                                        \
     if (wq_slot_pos != wq_head) { PR_OWNER(&wq_front_slot) = cv_wq_elem(wq_head); wq_slot_pos = wq_head; }                                 \
     return &wq_front_slot; }                                                                                                   \
+  PR *BACK(WQ *d) { Q_TOUCH("std::queue<promise>::back");        /* (not used by cocls today; lets a LIFO variant fail a postcondition, not the build) */ \
+    __CPROVER_assert(wq_head < wq_tail, "std::queue<promise>::back() on a non-empty queue");                                         \
+    PR_OWNER(&wq_back_slot) = cv_wq_elem(wq_tail - 1); return &wq_back_slot; }                                                        \
   void POP(WQ *d) { Q_TOUCH("std::queue<promise>::pop");                                                                             \
     __CPROVER_assert(wq_head < wq_tail, "std::queue<promise>::pop() on a non-empty queue");                                          \
     void *own = (wq_slot_pos == wq_head) ? (void *)PR_OWNER(&wq_front_slot) : cv_wq_elem(wq_head);                                                 \
@@ -87,12 +90,12 @@ static void *cv_wq_elem(cv_i64 pos) { void *any = nondet_ptr(); __CPROVER_assume
     PR_OWNER(&wq_back_slot) = own; QM_NOWRAP(wq_tail); wq_tail++; return &wq_back_slot; }
 #ifdef CV_MODEL_WQ_INT
 CV_DEF_WQ(WQI_T, PRI, _ZNSt5queueIN5cocls7promiseIiEESt5dequeIS2_SaIS2_EEEC2IS5_vEEv, _ZNSt5queueIN5cocls7promiseIiEESt5dequeIS2_SaIS2_EEED2Ev,
-          _ZNKSt5queueIN5cocls7promiseIiEESt5dequeIS2_SaIS2_EEE5emptyEv, _ZNSt5queueIN5cocls7promiseIiEESt5dequeIS2_SaIS2_EEE5frontEv,
+          _ZNKSt5queueIN5cocls7promiseIiEESt5dequeIS2_SaIS2_EEE5emptyEv, _ZNSt5queueIN5cocls7promiseIiEESt5dequeIS2_SaIS2_EEE5frontEv, _ZNSt5queueIN5cocls7promiseIiEESt5dequeIS2_SaIS2_EEE4backEv,
           _ZNSt5queueIN5cocls7promiseIiEESt5dequeIS2_SaIS2_EEE3popEv, _ZNSt5queueIN5cocls7promiseIiEESt5dequeIS2_SaIS2_EEE7emplaceIJS2_EEEDcDpOT_)
 #endif
 #ifdef CV_MODEL_WQ_VOID
 CV_DEF_WQ(WQV_T, PRV, _ZNSt5queueIN5cocls7promiseIvEESt5dequeIS2_SaIS2_EEEC2IS5_vEEv, _ZNSt5queueIN5cocls7promiseIvEESt5dequeIS2_SaIS2_EEED2Ev,
-          _ZNKSt5queueIN5cocls7promiseIvEESt5dequeIS2_SaIS2_EEE5emptyEv, _ZNSt5queueIN5cocls7promiseIvEESt5dequeIS2_SaIS2_EEE5frontEv,
+          _ZNKSt5queueIN5cocls7promiseIvEESt5dequeIS2_SaIS2_EEE5emptyEv, _ZNSt5queueIN5cocls7promiseIvEESt5dequeIS2_SaIS2_EEE5frontEv, _ZNSt5queueIN5cocls7promiseIvEESt5dequeIS2_SaIS2_EEE4backEv,
           _ZNSt5queueIN5cocls7promiseIvEESt5dequeIS2_SaIS2_EEE3popEv, _ZNSt5queueIN5cocls7promiseIvEESt5dequeIS2_SaIS2_EEE7emplaceIJS2_EEEDcDpOT_)
 #endif
 #endif
